@@ -63,7 +63,14 @@ func c15GenCase(rt *rapid.T) c15Case {
 			op.Flags = rapid.OneOf(rapid.SampledFrom([]uint64{0, 1, 2, 0x40, 0x241, 0xffffffffffffffff, 0x8000000000000000, 0x200000}), rapid.Uint64()).Draw(rt, "flags")
 			c.Ops = append(c.Ops, op)
 		case k < 13:
-			nr := rapid.OneOf(rapid.Int64Range(468, 1200), rapid.SampledFrom([]int64{-1, 0x40000000, 0x40000001, 0x40000000 + 59, 0x7fffffff, 0x3fffffff, 500, 1023, 1 << 32, 1<<32 + 39, -100})).Draw(rt, "nr")
+			nr := rapid.OneOf(rapid.Int64Range(468, 1200), rapid.SampledFrom([]int64{-1, 0x40000000, 0x40000001, 0x40000000 + 59, 0x7fffffff, 0x3fffffff, 500, 1023, 1 << 32, 1<<32 + 39, -100}),
+				// the kernel and the filter look at the low 32 bits of the number register only: a traced (or allowed) syscall
+				// with garbage in the upper half still raises its trace event, and the tracer reads all 64 bits
+				rapid.Custom(func(t *rapid.T) int64 {
+					low := rapid.SampledFrom([]int64{2, 4, 6, 21, 59, 257, 262, 39}).Draw(t, "low")
+					hi := rapid.SampledFrom([]uint64{1 << 63, 0xffffffff00000000, 1 << 32, 0xdeadbeef00000000, 0x7fffffff00000000, 0x8000000100000000}).Draw(t, "hi")
+					return int64(hi | uint64(low))
+				})).Draw(rt, "nr")
 			c.Ops = append(c.Ops, c15Op{Kind: "unknown", Nr: nr})
 		case k < 18:
 			c.Ops = append(c.Ops, c15Op{Kind: "multi", Multi: rapid.SampledFrom(c15Multi).Draw(rt, "multi"), N: rapid.IntRange(2, 30).Draw(rt, "mn"),
@@ -78,7 +85,8 @@ func c15GenCase(rt *rapid.T) c15Case {
 func c15Run(c c15Case, root string, rec *vh.Recorder) error {
 	var s probe.Script
 	existing := filepath.Join(root, "file")
-	killType := -1 // index of first main-line op that must end the run as Disallowed Syscall
+	killType := -1      // index of first main-line op that must end the run as Disallowed Syscall
+	eitherKill := false // an op after which both Disallowed Syscall and the program's own ending are acceptable
 	reached := []int{}
 	longPath := root + "/" + strings.Repeat("d/", 1500) + "x" // ~3000+ bytes, valid length
 	tracedCall := func(sys string, parg string, dirfd uint64, flags uint64) int {
@@ -166,13 +174,20 @@ func c15Run(c c15Case, root string, rec *vh.Recorder) error {
 			reached = append(reached, tracedCall("stat", s.Str(existing), 0, 0))
 		case "unknown":
 			k := s.Sys(int(op.Nr), -1, -1, -1)
-			reached = append(reached, k)
 			nr32 := uint32(op.Nr)
-			if nr32 < 0x40000000 && nr32 >= 468 && killType < 0 {
-				killType = k
+			if uint64(op.Nr)>>32 != 0 && nr32 < 468 {
+				// a known syscall with garbage in the upper register half: whether the tracer judges the full value (unknown
+				// number: kill) or the number the kernel runs is not prescribed; either ending is a verdict about the program
+				eitherKill = true
+				classes = append(classes, "known-syscall-number-with-upper-garbage")
+			} else {
+				reached = append(reached, k)
+				if nr32 < 0x40000000 && nr32 >= 468 && killType < 0 && !eitherKill {
+					killType = k
+				}
+				classes = append(classes, "unknown-syscall-number")
 			}
 			hostileSeen = true
-			classes = append(classes, "unknown-syscall-number")
 		case "multi":
 			classes = append(classes, "multi="+op.Multi)
 			hostileSeen = true
@@ -386,7 +401,9 @@ func c15Run(c c15Case, root string, rec *vh.Recorder) error {
 			multi = true
 		}
 	}
-	if !multi && !handlerKills {
+	if !multi && !handlerKills && eitherKill && res.Status == runner.StatusDisallowedSyscall {
+		// accepted, see above
+	} else if !multi && !handlerKills {
 		if killType >= 0 {
 			if res.Status != runner.StatusDisallowedSyscall {
 				return vh.Violf("C15:verdict", "unknown syscall number on the main path but status %v exit %d err %q", res.Status, res.ExitStatus, res.Error)
